@@ -10,15 +10,18 @@ open Hex Hex.X Hex.Xcmp Hex.IAm Hex.Asm
 /-! ### Well-formedness of an activation at any stack pointer, from the lowest one -/
 
 theorem wfs_shift (G : GCtx) (pi : PInfo) (dep0 dep : Nat) (hi0 hi : Nat → Word) (exitJ : Nat)
-    (wf0 : (KOf G pi G.lo dep0 hi0).WFS exitJ)
+    (wf0 : (KOf G.noArr pi G.lo dep0 hi0).WFS exitJ)
     (E1 : ∀ n sym a, G.cg.tbl.lookup pi.p.name n = .ok sym → sym.scope = "" → G.locOf pi G.lo n = some a → a < G.lo)
     (E2 : ∀ n sym, G.cg.tbl.lookup pi.p.name n = .ok sym → located sym = true → sym.scope ≠ "" →
       sym.stackOffset ≤ (pi.po : Int) + pi.p.formals.length)
     (code_lo : ∀ w, G.lo ≤ w → G.env.isCode w = false) (top : G.spv + 2 < memWords) (lo_ge : 2 ≤ G.lo)
+    (arr_hi : ∀ id, G.asize id ≠ 0 → G.spv + 2 < G.abase id ∧ G.abase id + G.asize id ≤ memWords)
+    (arr_disj : ∀ id1 id2, id1 ≠ id2 → G.asize id1 ≠ 0 → G.asize id2 ≠ 0 →
+      G.abase id1 + G.asize id1 ≤ G.abase id2 ∨ G.abase id2 + G.asize id2 ≤ G.abase id1)
+    (lo_spv : G.lo ≤ G.spv)
     (sp : Nat) (hlo : G.lo ≤ sp) (hact : sp + G.S pi + pi.po + pi.p.formals.length ≤ G.spv + 1) :
     (KOf G pi sp dep hi).WFS exitJ := by
   have hpo := po_pos pi
-  have loc0 : ∀ n a, (KOf G pi G.lo dep0 hi0).loc n = some a ↔ G.locOf pi G.lo n = some a := fun _ _ => Iff.rfl
   exact {
     nodup := wf0.nodup
     var_global := by
@@ -136,7 +139,37 @@ theorem wfs_shift (G : GCtx) (pi : PInfo) (dep0 dep : Nat) (hi0 hi : Nat → Wor
       refine ⟨?_, code_lo _ (by show G.lo ≤ sp + 2; omega)⟩
       show sp + 2 < memWords
       unfold memWords at *
-      omega }
+      omega
+    arr_hi := by
+      intro id hz
+      have := arr_hi id hz
+      exact ⟨by show sp + G.S pi < G.abase id; omega, this.2⟩
+    arr_disj := arr_disj
+    arr_code := by
+      intro id k hk
+      have hk' : k < G.asize id := hk
+      have := arr_hi id (by omega)
+      exact code_lo _ (by show G.lo ≤ G.abase id + k; omega)
+    loc_na := by
+      intro n a hloc
+      have hloc' : G.locOf pi sp n = some a := hloc
+      intro ⟨id, h1, h2⟩
+      have h1' : G.abase id ≤ a := h1
+      have h2' : a < G.abase id + G.asize id := h2
+      have hb := arr_hi id (by omega)
+      rcases G.locOf_cases pi sp n a hloc' with ⟨sym', hl', hs', hall⟩ | ⟨sym', c, hl', hs', hc, ha, hall⟩
+      · have := E1 n sym' a hl' hs' (hall G.lo)
+        omega
+      · have hlocd : located sym' = true := by
+          have := hall sp
+          unfold GCtx.locOf at this
+          rw [hl'] at this
+          simp only at this
+          by_cases h : located sym' = true
+          · exact h
+          · rw [if_neg h] at this; simp at this
+        have hb2 := E2 n sym' hl' hlocd hs'
+        omega }
 
 /-! ### The program context of a compilation -/
 
@@ -172,13 +205,14 @@ def v2Gloc (cg : CGOut) (env : Env) (n : String) : Option Nat :=
 def smaxOf (cg : CGOut) (procs : List PInfo) : Nat :=
   procs.foldl (fun m pi => max m (frameOf cg pi.idx).size) 0
 
-def mkG (P : X.Program) (st : Stages) (img : Image) (fuel : Nat) (procs : List PInfo) : GCtx :=
+def mkG (pk : Bool) (P : X.Program) (st : Stages) (img : Image) (fuel : Nat) (procs : List PInfo) : GCtx :=
   { env := v1Env st img, cg := st.cg, xc := v2Xc P fuel,
     consts := (procs.getLast?.map fun pi => pi.gs2.constMap).getD [],
     procs := procs, gnames := P.globals.map X.Decl.name, pnames := P.procs.map (·.name),
     gloc := v2Gloc st.cg (v1Env st img),
     spv := (spValue st.cg.globalsOffset).toNat, smax := smaxOf st.cg procs,
-    lo := (spValue st.cg.globalsOffset).toNat - X.maxDepth * smaxOf st.cg procs }
+    lo := (spValue st.cg.globalsOffset).toNat - X.maxDepth * smaxOf st.cg procs,
+    pk := pk }
 
 /-! ### The decidable check -/
 
@@ -222,7 +256,7 @@ def procCheck (G : GCtx) (pi : PInfo) : Bool :=
   atB G.env.ds (G.iEpi pi) (G.epi pi) &&
   decide (pi.gs2.size ≤ G.S pi) && decide (pi.p.locals.length ≤ pi.gs1.offset) &&
   pi.gs2.constMap.all (fun e => G.consts.contains e) && decide (G.S pi ≤ G.smax) &&
-  okS4 G.pnames pi.p.body && pi.p.formals.all isValFormal && pi.p.locals.all isVarDecl &&
+  okS5 G.pk G.pnames G.xc.impure pi.p.body && pi.p.formals.all isValFormal && pi.p.locals.all isVarDecl &&
   G.procs.all (fun pj =>
     match G.cg.tbl.lookup pi.p.name pj.p.name with
     | .ok sym => decide ((sym.type = .func) ↔ (pj.p.isFunc = true))
@@ -281,11 +315,17 @@ theorem ok_of_checks (G : GCtx) (imgWords : Nat)
       genStmt (G.ctxOf pi) (optStmt (annotS (fun _ => none) pi.p.body)) pi.gs1 = .ok (pi.code, pi.gs2))
     (hbeyond : ∀ w, imgWords ≤ w → G.env.isCode w = false) (hcode1 : G.env.isCode 1 = false)
     (resolve : ∀ f p, G.xc.genv.lookup f = some (.proc p) → ∃ pi ∈ G.procs, pi.p = p ∧ p.name = f)
-    (genv_vars : ∀ n, n ∈ G.gnames ↔ G.xc.genv.lookup n = some .var)
+    (genv_vars : ∀ n, G.xc.genv.lookup n = some .var → n ∈ G.gnames)
+    (genv_arrs : ∀ n id, G.xc.genv.lookup n = some (.array id) → n ∈ G.gnames)
+    (gnames_genv : ∀ n ∈ G.gnames, G.xc.genv.lookup n = some .var ∨ ∃ id, G.xc.genv.lookup n = some (.array id))
+    (arr_hi : ∀ id, G.asize id ≠ 0 → G.spv + 2 < G.abase id ∧ G.abase id + G.asize id ≤ memWords)
+    (arr_disj : ∀ id1 id2, id1 ≠ id2 → G.asize id1 ≠ 0 → G.asize id2 ≠ 0 →
+      G.abase id1 + G.asize id1 ≤ G.abase id2 ∨ G.abase id2 + G.asize id2 ≤ G.abase id1)
     (no_vals : ∀ n w, G.xc.genv.lookup n ≠ some (.val w))
     (pnames_ok : ∀ f p, G.xc.genv.lookup f = some (.proc p) → f ∈ G.pnames)
     (pnames_mem : ∀ f ∈ G.pnames, ∃ p, G.xc.genv.lookup f = some (.proc p))
-    (genv_none : ∀ n, n ∉ G.gnames → n ∉ G.pnames → G.xc.genv.lookup n = none) : G.OK := by
+    (genv_none : ∀ n, n ∉ G.gnames → n ∉ G.pnames → G.xc.genv.lookup n = none)
+    (hpure : G.pk = true → PureOk G.xc) : G.OK := by
   unfold globalCheck at hglob
   simp only [Bool.and_eq_true, decide_eq_true_eq, List.all_eq_true] at hglob
   obtain ⟨⟨⟨⟨⟨⟨⟨⟨⟨g1, g2⟩, g3⟩, g4⟩, g5⟩, g6⟩, g7⟩, g8⟩, g9⟩, g10⟩ := hglob
@@ -296,7 +336,7 @@ theorem ok_of_checks (G : GCtx) (imgWords : Nat)
        atB G.env.ds (G.iBody pi) (lowerCode G.cg pi.code) = true ∧ atB G.env.ds (G.iEpi pi) (G.epi pi) = true ∧
        pi.gs2.size ≤ G.S pi ∧ pi.p.locals.length ≤ pi.gs1.offset ∧
        (∀ e ∈ pi.gs2.constMap, G.consts.contains e = true) ∧ G.S pi ≤ G.smax ∧
-       okS4 G.pnames pi.p.body = true ∧ pi.p.formals.all isValFormal = true ∧ pi.p.locals.all isVarDecl = true) ∧
+       okS5 G.pk G.pnames G.xc.impure pi.p.body = true ∧ pi.p.formals.all isValFormal = true ∧ pi.p.locals.all isVarDecl = true) ∧
       ((∀ pj ∈ G.procs, (match G.cg.tbl.lookup pi.p.name pj.p.name with
           | .ok sym => decide ((sym.type = .func) ↔ (pj.p.isFunc = true))
           | .error _ => false) = true) ∧
@@ -336,9 +376,11 @@ theorem ok_of_checks (G : GCtx) (imgWords : Nat)
     rw [hl] at this
     simp only [hloc, hs, ne_eq, not_false_eq_true, decide_true, Bool.and_self, if_true, decide_eq_true_eq] at this
     exact this
-  have wf0 : ∀ pi ∈ G.procs, (KOf G pi G.lo 0 noHi).WFS (G.iEpi pi) := by
+  have wf0 : ∀ pi ∈ G.procs, (KOf G.noArr pi G.lo 0 noHi).WFS (G.iEpi pi) := by
     intro pi hpi
-    exact wfsCheck_sound _ _ G.names (fun n a h => locOf_names G pi G.lo n a h) (hpc pi hpi).1.1
+    have hck : wfsCheck (KOf G.noArr pi G.lo 0 noHi) (G.iEpi pi) G.names = wfsCheck (KOf G pi G.lo 0 noHi) (G.iEpi pi) G.names := rfl
+    exact wfsCheck_sound _ _ G.names (fun n a h => locOf_names G pi G.lo n a h) (PCtx.arrOK_of_none _ (fun _ => rfl))
+      (hck.trans (hpc pi hpi).1.1)
   have hconst : ∀ v l j k, (v, l) ∈ G.consts → G.env.ds[j]? = some (.label k l) →
       G.env.ds[j + 1]? = some (.data v) ∧ 2 ≤ G.env.addr j / 4 ∧ G.env.addr j / 4 < G.lo := by
     intro v l j k hm hd
@@ -350,7 +392,7 @@ theorem ok_of_checks (G : GCtx) (imgWords : Nat)
     exact ⟨this.1.1, this.1.2, this.2⟩
   exact {
     wfs := fun pi hpi sp dep hi hlo hact =>
-      wfs_shift G pi 0 dep noHi hi (G.iEpi pi) (wf0 pi hpi) (fun n sym a h1 h2 h3 => (E1 pi hpi n sym a h1 h2 h3).1) (E2 pi hpi) code_lo g4 g5 sp hlo hact
+      wfs_shift G pi 0 dep noHi hi (G.iEpi pi) (wf0 pi hpi) (fun n sym a h1 h2 h3 => (E1 pi hpi n sym a h1 h2 h3).1) (E2 pi hpi) code_lo g4 g5 arr_hi arr_disj (by have := g6; omega) sp hlo hact
     nodup := g1
     at_pro := fun pi hpi => atB_sound _ _ _ (hpc pi hpi).1.2.2.2.1
     at_body := fun pi hpi => atB_sound _ _ _ (hpc pi hpi).1.2.2.2.2.1
@@ -363,6 +405,7 @@ theorem ok_of_checks (G : GCtx) (imgWords : Nat)
       simpa using this
     smax_ok := fun pi hpi => (hpc pi hpi).1.2.2.2.2.2.2.2.2.2.1
     body_ok := fun pi hpi => (hpc pi hpi).1.2.2.2.2.2.2.2.2.2.2.1
+    pure_ok := hpure
     formals_val := fun pi hpi => (hpc pi hpi).1.2.2.2.2.2.2.2.2.2.2.2.1
     locals_var := fun pi hpi => (hpc pi hpi).1.2.2.2.2.2.2.2.2.2.2.2.2
     resolve := resolve
@@ -376,6 +419,10 @@ theorem ok_of_checks (G : GCtx) (imgWords : Nat)
         simp only [decide_eq_true_eq] at this
         exact ⟨sym, rfl, this⟩
     genv_vars := genv_vars
+    genv_arrs := genv_arrs
+    gnames_genv := gnames_genv
+    arr_hi := arr_hi
+    arr_disj := arr_disj
     no_vals := no_vals
     pnames_ok := pnames_ok
     pnames_mem := pnames_mem
@@ -583,6 +630,22 @@ theorem v2_no_vals (n : String) (w : Word) : (v2Xc P fuel).genv.lookup n ≠ som
     obtain ⟨_, _, _, h2⟩ := lookup_map_val _ _ _ _ _ h
     simp at h2
 
+theorem v2_no_arrs (n : String) (id : Nat) : (v2Xc P fuel).genv.lookup n ≠ some (.array id) := by
+  rw [v2_genv_lookup]
+  intro h
+  cases hg : (P.globals.map fun d => (d.name, GBind.var)).lookup n with
+  | some b =>
+    rw [hg] at h
+    obtain ⟨_, _, _, h2⟩ := lookup_map_val _ _ _ _ _ hg
+    simp only [Option.some_or, Option.some.injEq] at h
+    rw [h] at h2
+    simp at h2
+  | none =>
+    rw [hg] at h
+    simp only [Option.none_or] at h
+    obtain ⟨_, _, _, h2⟩ := lookup_map_val _ _ _ _ _ h
+    simp at h2
+
 theorem v2_proc_lookup (f : String) (p : X.Proc) (h : (v2Xc P fuel).genv.lookup f = some (.proc p)) :
     p ∈ P.procs ∧ p.name = f := by
   rw [v2_genv_lookup] at h
@@ -774,15 +837,48 @@ theorem v2_core (G : GCtx) (ok : G.OK) (fuel : Nat) (mem0 : Mem) (st0 : X.St) (h
     obtain ⟨c, hf, he⟩ := v2_finish G.env iStub hstub a' b' mem' s.io G.spv h1 htop (ok.code_lo _ (by omega))
     exact ⟨c, (hstart.trans hs).trans hf, he, a', b', mem', hstart.trans hs, h1, hf⟩
 
+/-- `PureOk`, decided: the body of every procedure outside `ctx.impure` passes the impurity
+    analysis with that set. -/
+def pureOkB (xc : X.Ctx) : Bool :=
+  xc.genv.all fun e =>
+    match e.2 with
+    | .proc p => xc.impure.contains e.1 || !(X.impS (imp0 xc p.localNames) p.isLocalVar p.body)
+    | _ => true
+
+theorem lookup_mem_pair {β} : ∀ (l : List (String × β)) (n : String) (b : β), l.lookup n = some b → (n, b) ∈ l := by
+  intro l
+  induction l with
+  | nil => intro n b h; simp at h
+  | cons e rest ih =>
+    intro n b h
+    obtain ⟨k, v⟩ := e
+    simp only [List.lookup_cons] at h
+    by_cases hk : n == k
+    · simp only [hk] at h
+      have : n = k := by simpa using hk
+      simp only [Option.some.injEq] at h
+      subst this; subst h
+      exact List.mem_cons_self
+    · simp only [hk] at h
+      exact List.mem_cons_of_mem _ (ih n b h)
+
+theorem pureOkB_sound (xc : X.Ctx) (h : pureOkB xc = true) : PureOk xc := by
+  refine ⟨fun f p hl hi => ?_⟩
+  unfold pureOkB at h
+  rw [List.all_eq_true] at h
+  have := h (f, .proc p) (lookup_mem_pair _ _ _ hl)
+  simp only [hi, Bool.false_or, Bool.not_eq_true'] at this
+  exact this
+
 open V1Pos in
 /-- **The decidable side condition of the whole-program theorem for programs with several
-    procedures.** -/
-def v2Check (P : X.Program) (st : Stages) (img : Image) : Bool :=
+    procedures** (`pk`: with calls of pure functions in operands). -/
+def vCheck (pk : Bool) (P : X.Program) (st : Stages) (img : Image) : Bool :=
   P.globals.all isVarDecl &&
   match genProcs st.cg P.procs 0 { labelCount := P.globals.length } (2 + st.cg.data.length + 8) with
   | none => false
   | some procs =>
-    let G := mkG P st img 0 procs
+    let G := mkG pk P st img 0 procs
     decide (st.optimised = peephole st.lowered) && parsedOkB st.optimised && decide (st.optimised.length < 2 ^ 26) &&
     decide (img.bytes.length ≤ 4 * memWords) && Separated st.optimised &&
     procs.all (procCheck G) && globalCheck G (img.bytes.length / 4) &&
@@ -791,17 +887,24 @@ def v2Check (P : X.Program) (st : Stages) (img : Image) : Bool :=
     decide (0 ≤ spValue st.cg.globalsOffset) &&
     (match procs.find? (fun pi => pi.p.name == "main") with
      | some pm => !pm.p.isFunc
-     | none => false)
+     | none => false) &&
+    (!pk || pureOkB (v2Xc P 0))
 
-theorem procCheck_fuel (P : X.Program) (st : Stages) (img : Image) (f : Nat) (procs : List PInfo) (pi : PInfo) :
-    procCheck (mkG P st img f procs) pi = procCheck (mkG P st img 0 procs) pi := rfl
+/-- The check for the class V2 (calls only as statements and as whole right-hand sides). -/
+def v2Check (P : X.Program) (st : Stages) (img : Image) : Bool := vCheck false P st img
 
-theorem globalCheck_fuel (P : X.Program) (st : Stages) (img : Image) (f : Nat) (procs : List PInfo) (w : Nat) :
-    globalCheck (mkG P st img f procs) w = globalCheck (mkG P st img 0 procs) w := rfl
+/-- The check for the class V3 (also: calls of pure functions in operands). -/
+def v3Check (P : X.Program) (st : Stages) (img : Image) : Bool := vCheck true P st img
+
+theorem procCheck_fuel (pk : Bool) (P : X.Program) (st : Stages) (img : Image) (f : Nat) (procs : List PInfo) (pi : PInfo) :
+    procCheck (mkG pk P st img f procs) pi = procCheck (mkG pk P st img 0 procs) pi := rfl
+
+theorem globalCheck_fuel (pk : Bool) (P : X.Program) (st : Stages) (img : Image) (f : Nat) (procs : List PInfo) (w : Nat) :
+    globalCheck (mkG pk P st img f procs) w = globalCheck (mkG pk P st img 0 procs) w := rfl
 
 /-- Everything the whole-program theorems need of a compilation that passes `v2Check`. -/
-theorem v2_setup (P : X.Program) (st : Stages) (img : Image) (inp : X.Input) (fuel : Nat)
-    (hasm : assembleDirs st.optimised = .ok img) (hchk : v2Check P st img = true) :
+theorem v_setup (pk : Bool) (P : X.Program) (st : Stages) (img : Image) (inp : X.Input) (fuel : Nat)
+    (hasm : assembleDirs st.optimised = .ok img) (hchk : vCheck pk P st img = true) :
     ∃ (G : GCtx) (pm : PInfo), G.OK ∧ G.env = v1Env st img ∧ G.xc = v2Xc P fuel ∧ Good st.optimised img ∧
       Peep st.lowered st.optimised (peepSt st.lowered) ∧ P.globals.all isVarDecl = true ∧
       pm ∈ G.procs ∧ pm.p.name = "main" ∧ pm.p.isFunc = false ∧
@@ -810,19 +913,20 @@ theorem v2_setup (P : X.Program) (st : Stages) (img : Image) (inp : X.Input) (fu
       At G.env.ds (2 + st.cg.data.length) v1Stub ∧
       GRep G (v2St0 P inp) (Am.boot img).mem ∧ (Am.boot img).mem.read 1 = BitVec.ofNat 32 G.spv ∧
       G.spv = (spValue st.cg.globalsOffset).toNat := by
-  unfold v2Check at hchk
+  unfold vCheck at hchk
   rw [Bool.and_eq_true] at hchk
   obtain ⟨hgv, hchk⟩ := hchk
   split at hchk
   · simp at hchk
   rename_i procs hprocs
   simp only [Bool.and_eq_true, decide_eq_true_eq, List.all_eq_true] at hchk
-  obtain ⟨⟨⟨⟨⟨⟨⟨⟨⟨⟨c1, c3⟩, c4⟩, c5⟩, c6⟩, cproc⟩, cglob⟩, chead⟩, cstub⟩, c0⟩, cmain⟩ := hchk
+  obtain ⟨⟨⟨⟨⟨⟨⟨⟨⟨⟨⟨c1, c3⟩, c4⟩, c5⟩, c6⟩, cproc⟩, cglob⟩, chead⟩, cstub⟩, c0⟩, cmain⟩, cpure⟩ := hchk
   obtain ⟨hmap, hgen⟩ := genProcs_spec st.cg _ _ _ _ _ hprocs
   have g : Good st.optimised img := ⟨parsedOkB_sound _ c3, c4, assembleDirs_ok _ _ hasm, c5, c6⟩
   have F := facts_of_good st.optimised img g
   have hp : Peep st.lowered st.optimised (peepSt st.lowered) := by rw [c1]; exact peephole_peep _
-  obtain ⟨G, hG⟩ : ∃ G, G = mkG P st img fuel procs := ⟨_, rfl⟩
+  obtain ⟨G, hG⟩ : ∃ G, G = mkG pk P st img fuel procs := ⟨_, rfl⟩
+  have hGpk : G.pk = pk := by rw [hG]; rfl
   have hGenv : G.env = v1Env st img := by rw [hG]; rfl
   have hGprocs : G.procs = procs := by rw [hG]; rfl
   have hGxc : G.xc = v2Xc P fuel := by rw [hG]; rfl
@@ -885,7 +989,18 @@ theorem v2_setup (P : X.Program) (st : Stages) (img : Image) (inp : X.Input) (fu
       exact ⟨pi, by rw [hGprocs]; exact hpi, hpp, hn⟩
     · intro n
       rw [hGxc, hGg]
-      exact v2_genv_vars P fuel hnd n
+      exact (v2_genv_vars P fuel hnd n).mpr
+    · intro n id h
+      rw [hGxc] at h
+      exact absurd h (v2_no_arrs P fuel n id)
+    · intro n hn
+      rw [hGg] at hn
+      rw [hGxc]
+      exact Or.inl ((v2_genv_vars P fuel hnd n).mp hn)
+    · intro id hz
+      exact absurd (by rw [hG]; rfl) hz
+    · intro id1 id2 _ hz
+      exact absurd (by rw [hG]; rfl) hz
     · intro n w
       rw [hGxc]
       exact v2_no_vals P fuel n w
@@ -903,6 +1018,14 @@ theorem v2_setup (P : X.Program) (st : Stages) (img : Image) (inp : X.Input) (fu
       rw [hGg] at h1
       rw [hGp] at h2
       exact v2_genv_none P fuel n h1 h2
+    · intro hpk
+      rw [hGpk] at hpk
+      rw [hGxc]
+      have hb : pureOkB (v2Xc P fuel) = true := by
+        have h0 : pureOkB (v2Xc P fuel) = pureOkB (v2Xc P 0) := rfl
+        rw [h0]
+        simpa [hpk] using cpure
+      exact pureOkB_sound _ hb
   cases hfm : procs.find? (fun pi => pi.p.name == "main") with
   | none => rw [hfm] at cmain; simp at cmain
   | some pm =>
@@ -921,10 +1044,15 @@ theorem v2_setup (P : X.Program) (st : Stages) (img : Image) (inp : X.Input) (fu
       rw [hmap, hfind] at h1
       exact (Option.some.inj h1).symm
     have hg0 : GRep G (v2St0 P inp) (Am.boot img).mem := by
-      refine ⟨?_, ?_⟩
+      refine ⟨?_, ?_, ?_, ?_⟩
       · intro n w _ hl
         have := lookup_map_const _ _ _ _ _ hl
         simp at this
+      · intro n id h
+        rw [hGxc] at h
+        exact absurd h (v2_no_arrs P fuel n id)
+      · intro id cells h
+        simp [v2St0] at h
       · intro v l j k hmem hd
         have hdat := ok.const_data v l j k hmem hd
         obtain ⟨_, hval, _⟩ := hdata (j + 1) v hdat
@@ -932,16 +1060,28 @@ theorem v2_setup (P : X.Program) (st : Stages) (img : Image) (inp : X.Input) (fu
         exact hval
     exact ⟨G, pm, ok, hGenv, hGxc, g, hp, hgv, hpm, hname, cmain, hpmm, hhead, hstub, hg0, hm1', hGspv⟩
 
+theorem v2_setup (P : X.Program) (st : Stages) (img : Image) (inp : X.Input) (fuel : Nat)
+    (hasm : assembleDirs st.optimised = .ok img) (hchk : v2Check P st img = true) :
+    ∃ (G : GCtx) (pm : PInfo), G.OK ∧ G.env = v1Env st img ∧ G.xc = v2Xc P fuel ∧ Good st.optimised img ∧
+      Peep st.lowered st.optimised (peepSt st.lowered) ∧ P.globals.all isVarDecl = true ∧
+      pm ∈ G.procs ∧ pm.p.name = "main" ∧ pm.p.isFunc = false ∧
+      (∀ m, P.procs.find? (·.name == "main") = some m → pm.p = m) ∧
+      At G.env.ds 0 [.ref 0x9 "_start" true, .data (spValue st.cg.globalsOffset)] ∧
+      At G.env.ds (2 + st.cg.data.length) v1Stub ∧
+      GRep G (v2St0 P inp) (Am.boot img).mem ∧ (Am.boot img).mem.read 1 = BitVec.ofNat 32 G.spv ∧
+      G.spv = (spValue st.cg.globalsOffset).toNat :=
+  v_setup false P st img inp fuel hasm hchk
+
 /-- **Whole programs with several procedures.**  `st` are the stages of the compilation of `P`,
     `img` the assembled image; under the decidable check `v2Check` every defined behaviour of `P`
     is the behaviour of the ISA on `img`. -/
-theorem v2_correct (P : X.Program) (st : Stages) (img : Image) (inp : X.Input) (fuel : Nat) (β : X.Behaviour)
-    (hasm : assembleDirs st.optimised = .ok img) (hchk : v2Check P st img = true)
+theorem v_correct (pk : Bool) (P : X.Program) (st : Stages) (img : Image) (inp : X.Input) (fuel : Nat) (β : X.Behaviour)
+    (hasm : assembleDirs st.optimised = .ok img) (hchk : vCheck pk P st img = true)
     (hrun : X.run P inp fuel = .defined β) :
     ∃ n code j s' io, Isa.run n (Am.boot img) (Isa.IOSt.init inp.stdin inp.files) = .exited code j s' io ∧
       code = β.exit ∧ io.log.reverse = β.events ∧ inp.stdin.length - io.stdin.length = β.stdinConsumed := by
   obtain ⟨G, pm, ok, hGenv, hGxc, g, hp, hgv, hpm, hname, cmain, hpmm, hhead, hstub, hg0, hm1', _⟩ :=
-    v2_setup P st img inp fuel hasm hchk
+    v_setup pk P st img inp fuel hasm hchk
   obtain ⟨m, hfind, hcases⟩ := run_v2 P inp fuel β hgv hrun
   have hcore := v2_core G ok fuel (Am.boot img).mem (v2St0 P inp) rfl pm hpm hname cmain
     (spValue st.cg.globalsOffset) (2 + st.cg.data.length) hhead hstub hg0 hm1'
@@ -966,6 +1106,13 @@ theorem v2_correct (P : X.Program) (st : Stages) (img : Image) (inp : X.Input) (
     obtain ⟨c', hsteps', hexit'⟩ := peep_run (env' := envOf st.optimised img) hp hnd' _ _ c s.io code hsteps hexit
     obtain ⟨n, j, s', hr⟩ := IAm_refines_Isa g _ c' s.io code (by rw [hboot]; exact hsteps') hexit'
     exact ⟨n, code, j, s', s.io, hr, e1.symm, e2.symm, e3.symm⟩
+
+theorem v2_correct (P : X.Program) (st : Stages) (img : Image) (inp : X.Input) (fuel : Nat) (β : X.Behaviour)
+    (hasm : assembleDirs st.optimised = .ok img) (hchk : v2Check P st img = true)
+    (hrun : X.run P inp fuel = .defined β) :
+    ∃ n code j s' io, Isa.run n (Am.boot img) (Isa.IOSt.init inp.stdin inp.files) = .exited code j s' io ∧
+      code = β.exit ∧ io.log.reverse = β.events ∧ inp.stdin.length - io.stdin.length = β.stdinConsumed :=
+  v_correct false P st img inp fuel β hasm hchk hrun
 
 /-- **The class V2 with its side conditions, as one decidable predicate of the source program.** -/
 def v2Ok (P : X.Program) : Bool :=
@@ -999,6 +1146,51 @@ def isV2 (P : X.Program) : Bool :=
   let pn := P.procs.map (·.name)
   P.globals.all isVarDecl &&
   P.procs.all (fun p => p.formals.all isValFormal && p.locals.all isVarDecl && okS4 pn p.body &&
+    (p.formals.map X.Formal.name ++ p.locals.map X.Decl.name).all (fun n => !gn.contains n && !pn.contains n)) &&
+  (match P.procs.find? (·.name == "main") with
+   | some m => !m.isFunc && m.formals.isEmpty
+   | none => false)
+
+/-! ### The class V3: also calls of pure functions in operand positions -/
+
+theorem v3_correct (P : X.Program) (st : Stages) (img : Image) (inp : X.Input) (fuel : Nat) (β : X.Behaviour)
+    (hasm : assembleDirs st.optimised = .ok img) (hchk : v3Check P st img = true)
+    (hrun : X.run P inp fuel = .defined β) :
+    ∃ n code j s' io, Isa.run n (Am.boot img) (Isa.IOSt.init inp.stdin inp.files) = .exited code j s' io ∧
+      code = β.exit ∧ io.log.reverse = β.events ∧ inp.stdin.length - io.stdin.length = β.stdinConsumed :=
+  v_correct true P st img inp fuel β hasm hchk hrun
+
+/-- **The class V3 with its side conditions, as one decidable predicate of the source program.** -/
+def v3Ok (P : X.Program) : Bool :=
+  match stages P with
+  | .ok st =>
+    match assembleDirs st.optimised with
+    | .ok img => v3Check P st img
+    | .error _ => false
+  | .error _ => false
+
+theorem v3_whole (P : X.Program) (inp : X.Input) (fuel : Nat) (β : X.Behaviour) (img : Image)
+    (hok : v3Ok P = true) (hcomp : compile P = .ok img) (hrun : X.run P inp fuel = .defined β) :
+    ∃ n code j s' io, Isa.run n (Am.boot img) (Isa.IOSt.init inp.stdin inp.files) = .exited code j s' io ∧
+      code = β.exit ∧ io.log.reverse = β.events ∧ inp.stdin.length - io.stdin.length = β.stdinConsumed := by
+  unfold v3Ok at hok
+  split at hok
+  · rename_i st hst
+    have hc : compile P = assembleDirs st.optimised := by
+      unfold compile compileDirs
+      rw [hst]
+      rfl
+    rw [hc] at hcomp
+    rw [hcomp] at hok
+    exact v3_correct P st img inp fuel β hcomp hok hrun
+  · simp at hok
+
+/-- The syntactic part of the class V3 (implied by `v3Ok`). -/
+def isV3 (P : X.Program) : Bool :=
+  let gn := P.globals.map X.Decl.name
+  let pn := P.procs.map (·.name)
+  P.globals.all isVarDecl &&
+  P.procs.all (fun p => p.formals.all isValFormal && p.locals.all isVarDecl && okS5 true pn (X.impureProcs P) p.body &&
     (p.formals.map X.Formal.name ++ p.locals.map X.Decl.name).all (fun n => !gn.contains n && !pn.contains n)) &&
   (match P.procs.find? (·.name == "main") with
    | some m => !m.isFunc && m.formals.isEmpty
